@@ -137,7 +137,7 @@ class ModelsEmitter:
             import traceback
 
             logger.error(f"Traceback: {traceback.format_exc()}")
-            return None
+            raise
 
     def _generate_init_py_content(self) -> str:  # Removed generated_files_paths, models_dir args
         """Generates the content for models/__init__.py."""
